@@ -352,6 +352,15 @@ func (mgr *GCMgr) gc(bkt *Bucket, startChunkID, endChunkID int, merge bool) {
 			}
 		}
 
+		if gc.Src == gc.Dst && dstchunk.rewriting && dstchunk.gcWriter != nil {
+			// the file rewritten in place is drained: cut its stale tail off now, before any
+			// later source file is removed (a kill in between would bring old versions back)
+			if err = dstchunk.gcWriter.fd.Truncate(int64(dstchunk.writingHead)); err != nil {
+				gc.Err = err
+				logger.Errorf("gc failed: %s", err.Error())
+				return
+			}
+		}
 		if gc.Src != gc.Dst {
 			bkt.datas.chunks[gc.Src].Clear()
 		}
